@@ -4,6 +4,7 @@
   the real `dd` and prints answers in the same format.
 -/
 import DD.Apply
+import DD.MgrCopy
 open Std
 
 namespace DD
@@ -389,6 +390,17 @@ def stepLine (ms : Mgrs) (line : String) : Mgrs × String :=
       match r with
       | .ok _ => (ms.insert id m, "ok -")
       | .error e => (ms, "err " ++ toString e)
+    | _, _ => (ms, "err BAD-LINE")
+  | id :: "mcopy" :: [dst] =>
+    -- `copy.copy(bdd)`: a new manager `dst`
+    match parseNat? id, parseNat? dst with
+    | some id, some dst =>
+      match ms[id]? with
+      | some src =>
+        match mgrCopy src with
+        | .ok b => (ms.insert dst b, "ok -")
+        | .error e => (ms, "err " ++ toString e)
+      | none => (ms, "err BAD-MGR")
     | _, _ => (ms, "err BAD-LINE")
   | id :: "copy" :: [u, dst] =>
     -- `copy_bdd(u, from, to)`
